@@ -16,11 +16,12 @@ import (
 // ---------------------------------------------------------------- C05 / C16: fault sequences on a real broker
 
 type fStep struct {
-	A     string `json:"a"`
-	C     string `json:"c"`
-	Gone  bool   `json:"gone"`
-	Free  bool   `json:"free"`
-	Cross bool   `json:"cross"`
+	A       string `json:"a"`
+	C       string `json:"c"`
+	Gone    bool   `json:"gone"`
+	Free    bool   `json:"free"`
+	Cross   bool   `json:"cross"`
+	SelfSub bool   `json:"selfsub"`
 }
 type fScenario struct {
 	H    []fStep  `json:"h"`
@@ -36,6 +37,18 @@ type fClient struct {
 	closed  int32 // the broker closed the connection (EOF seen)
 	rx      chan rawPkt
 	cut     bool
+	wq      chan []byte // whole packets, written one after the other by the client's writer goroutine
+}
+
+// writeLoop: a real client writes whole packets; when the broker stops reading it simply blocks
+// (a write deadline could leave half a packet on the wire and turn the rest of the stream into garbage)
+func (f *fClient) writeLoop() {
+	for b := range f.wq {
+		f.c.SetWriteDeadline(time.Time{})
+		if _, err := f.c.Write(b); err != nil {
+			return
+		}
+	}
 }
 
 func (f *fClient) readLoop() {
@@ -92,9 +105,10 @@ func (fr *faultRun) connect(name, cid string, subs ...string) (*fClient, string)
 			return nil, fmt.Sprintf("INFRA %s subscribe %s: %v", name, f, err)
 		}
 	}
-	f := &fClient{name: name, c: m.c, svc: m.svc, reading: 1, rx: make(chan rawPkt, 64)}
+	f := &fClient{name: name, c: m.c, svc: m.svc, reading: 1, rx: make(chan rawPkt, 64), wq: make(chan []byte, 256)}
 	fr.cl[name] = f
 	go f.readLoop()
+	go f.writeLoop()
 	return f, ""
 }
 
@@ -104,9 +118,17 @@ func bigPublish(topic string, n int, tag byte) []byte {
 }
 
 func (fr *faultRun) write(f *fClient, b []byte, d time.Duration) error {
-	f.c.SetWriteDeadline(time.Now().Add(d))
-	_, err := f.c.Write(b)
-	return err
+	if f.wq == nil {
+		f.c.SetWriteDeadline(time.Now().Add(d))
+		_, err := f.c.Write(b)
+		return err
+	}
+	select {
+	case f.wq <- b:
+		return nil
+	default:
+		return fmt.Errorf("client write queue full")
+	}
 }
 
 // witness: W1 publishes one QoS 1 message, W2 must receive exactly it, both must answer
@@ -199,6 +221,9 @@ func runFaults(sc *fScenario) (string, string) {
 	if cross {
 		psubs = []string{"u"}
 	}
+	if len(sc.H) > 0 && sc.H[0].SelfSub {
+		psubs = append(psubs, "t")
+	}
 	if _, e := fr.connect("P", "fp", psubs...); e != "" {
 		return e, "INFRA"
 	}
@@ -223,6 +248,22 @@ func runFaults(sc *fScenario) (string, string) {
 		case "stopreading":
 			atomic.StoreInt32(&f.reading, 0)
 			time.Sleep(5 * time.Millisecond)
+		case "resume":
+			atomic.StoreInt32(&f.reading, 1)
+		case "pipeline-bad", "pipeline-disconnect":
+			// an ending packet with plenty of data behind it, written while the broker has stopped
+			// reading this connection (writes that do not get through are dropped)
+			first := []byte{0x36, 0x03, 0x00, 0x01, 't'} // PUBLISH with QoS 3: malformed
+			if st.A == "pipeline-disconnect" {
+				first = []byte{0xe0, 0}
+			}
+			if fr.write(f, first, 250*time.Millisecond) == nil {
+				for k := 0; k < 3; k++ {
+					if fr.write(f, bigPublish("t", 6000, byte('p'+k)), 250*time.Millisecond) != nil {
+						break
+					}
+				}
+			}
 		case "cut":
 			f.cut = true
 			f.c.Close()
@@ -238,7 +279,7 @@ func runFaults(sc *fScenario) (string, string) {
 				if end > len(p) {
 					end = len(p)
 				}
-				if err := fr.write(f, p[off:end], 400*time.Millisecond); err != nil {
+				if err := fr.write(f, append([]byte(nil), p[off:end]...), 400*time.Millisecond); err != nil {
 					break
 				}
 			}
